@@ -22,13 +22,14 @@ Lemma print_frags_ld fs :
   (if second_dot fs then [x2e] else []) ++ print_frags fs = x2e :: print_ld true fs.
 Proof.
   induction fs as [|f fs [IH1 IH2]]; [split; reflexivity|].
-  destruct f as [k|i|star|].
+  destruct f as [k|i|star| |ms].
   - cbn [print_frags print_ld second_dot print_frag]. rewrite IH1. destruct (token_ok k); split; reflexivity.
   - cbn [print_frags print_ld second_dot print_frag]. rewrite IH1. split; reflexivity.
   - cbn [print_frags print_ld second_dot print_frag]. rewrite IH1. destruct star; split; reflexivity.
   - cbn [print_frags print_ld second_dot]. split.
     + cbn [List.app]. f_equal. exact IH2.
     + cbn [List.app]. f_equal. f_equal. exact IH2.
+  - cbn [print_frags print_ld second_dot]. rewrite IH1. split; reflexivity.
 Qed.
 
 (* what follows a token in a printed path: nothing, or a byte that ends a token *)
@@ -37,10 +38,11 @@ Definition ends_token (w : bytes) : Prop := w = [] \/ exists b r, w = b :: r /\ 
 Lemma printed_ends_token fs : ends_token (print_ld false fs).
 Proof.
   destruct fs as [|f fs]; [left; reflexivity|]. right.
-  destruct f as [k|i|star|]; cbn [print_ld print_frag].
+  destruct f as [k|i|star| |ms]; cbn [print_ld print_frag].
   - destruct (token_ok k); eexists; eexists; (split; [reflexivity|reflexivity]).
   - eexists; eexists; (split; [reflexivity|reflexivity]).
   - destruct star; eexists; eexists; (split; [reflexivity|reflexivity]).
+  - eexists; eexists; (split; [reflexivity|reflexivity]).
   - eexists; eexists; (split; [reflexivity|reflexivity]).
 Qed.
 
@@ -53,12 +55,13 @@ Proof.
     rewrite (IH rest Hk Hr). reflexivity.
 Qed.
 
-Lemma read_digits_run ds : forall acc rest, all_digits ds ->
-  read_digits acc (ds ++ x5d :: rest) = (fold_left (fun a d => a * 10 + digit_val d) ds acc, x5d :: rest).
+Lemma read_digits_run ds : forall acc e rest, all_digits ds -> is_digit e = false ->
+  read_digits acc (ds ++ e :: rest) = (fold_left (fun a d => a * 10 + digit_val d) ds acc, e :: rest).
 Proof.
-  induction ds as [|d ds IH]; intros acc rest H.
-  - reflexivity.
-  - inversion H as [|? ? Hd Hds]; subst. cbn [List.app read_digits fold_left]. rewrite Hd. apply IH. exact Hds.
+  induction ds as [|d ds IH]; intros acc e rest H He.
+  - cbn [List.app read_digits fold_left]. rewrite He. reflexivity.
+  - pose proof (Forall_inv H) as Hd. cbn beta in Hd. pose proof (Forall_inv_tail H) as Hds.
+    cbn [List.app read_digits fold_left]. rewrite Hd. apply IH; assumption.
 Qed.
 
 (* the decimal text of a positive number: digits, the first one not 0, with that value *)
@@ -76,18 +79,19 @@ Proof.
   repeat split; (destruct (beqb d _) eqn:E; [apply beqb_eq in E; subst d; vm_compute in H1; vm_compute in H2; exfalso; (apply H1 || apply H2); reflexivity | reflexivity]).
 Qed.
 
-Lemma parse_nth f ld i rest :
-  parse_frags (S f) ld (print_frag (NNth i) ++ rest) = cons_opt (NNth i) (parse_frags f false rest).
+(* the text of an integer followed by a non-digit: its first byte is neither a quote, a star nor a
+   space, and readInt gives the integer back and stops at that byte *)
+Lemma read_int_fmt i e rest : is_digit e = false ->
+  exists q r', format_int i ++ e :: rest = q :: r' /\
+    beqb q x20 = false /\ beqb q x2a = false /\ beqb q x27 || beqb q x22 = false /\
+    read_int q r' = Some (i, e :: rest).
 Proof.
-  unfold print_frag, format_int. destruct (i <? 0) eqn:En.
+  intro He. unfold format_int. destruct (i <? 0) eqn:En.
   - apply Z.ltb_lt in En. destruct (dec_text (- i) ltac:(lia)) as (d & ds & E & HA & HV). rewrite E.
     pose proof (Forall_inv HA) as Hd. cbn beta in Hd.
-    cbn [List.app parse_frags]. change (beqb x5b x2e) with false. change (beqb x5b x2a) with false. change (beqb x5b x5b) with true. cbn iota.
-    cbn [skip_space]. change (beqb x2d x20) with false. cbn iota.
-    change (beqb x2d x2a) with false. change (beqb x2d x27 || beqb x2d x22) with false. cbn iota. change (beqb x2d x2d) with true. cbn iota.
-    rewrite <- app_assoc. cbn [List.app]. rewrite Hd.
-    change (d :: ds ++ x5d :: rest) with ((d :: ds) ++ x5d :: rest). rewrite (read_digits_run (d :: ds) 0 rest HA).
-    cbn [skip_space]. change (beqb x5d x20) with false. cbn iota. change (beqb x5d x5d) with true. cbn iota.
+    exists x2d, ((d :: ds) ++ e :: rest). split; [reflexivity|]. split; [reflexivity|]. split; [reflexivity|]. split; [reflexivity|].
+    unfold read_int. change (beqb x2d x2d) with true. cbn iota. cbn [List.app]. rewrite Hd.
+    change (d :: ds ++ e :: rest) with ((d :: ds) ++ e :: rest). rewrite (read_digits_run (d :: ds) 0 e rest HA He).
     fold (digits_val (d :: ds)). rewrite HV. replace (- - i) with i by lia. reflexivity.
   - apply Z.ltb_ge in En.
     assert (Hfmt : exists d ds, format_uint i = d :: ds /\ all_digits (d :: ds) /\ digits_val (d :: ds) = i).
@@ -96,12 +100,86 @@ Proof.
       - apply dec_text. lia. }
     destruct Hfmt as (d & ds & E & HA & HV). rewrite E. pose proof (Forall_inv HA) as Hd. cbn beta in Hd.
     destruct (is_digit_not_special d Hd) as (N1 & N2 & N3 & N4 & N5).
-    cbn [List.app parse_frags]. change (beqb x5b x2e) with false. change (beqb x5b x2a) with false. change (beqb x5b x5b) with true. cbn iota.
-    cbn [skip_space]. rewrite N4. rewrite N5. rewrite N1, N2. cbn [orb]. cbn iota. rewrite N3. cbn iota. rewrite Hd.
-    rewrite <- app_assoc. cbn [List.app].
-    change (d :: ds ++ x5d :: rest) with ((d :: ds) ++ x5d :: rest). rewrite (read_digits_run (d :: ds) 0 rest HA).
-    cbn [skip_space]. change (beqb x5d x20) with false. cbn iota. change (beqb x5d x5d) with true. cbn iota.
+    exists d, (ds ++ e :: rest). split; [reflexivity|]. split; [exact N4|]. split; [exact N5|]. split; [rewrite N1, N2; reflexivity|].
+    unfold read_int. rewrite N3. cbn iota. rewrite Hd.
+    change (d :: ds ++ e :: rest) with ((d :: ds) ++ e :: rest). rewrite (read_digits_run (d :: ds) 0 e rest HA He).
     fold (digits_val (d :: ds)). rewrite HV. reflexivity.
+Qed.
+
+Lemma parse_nth f ld i rest :
+  parse_frags (S f) ld (print_frag (NNth i) ++ rest) = cons_opt (NNth i) (parse_frags f false rest).
+Proof.
+  unfold print_frag. cbn [List.app]. rewrite <- app_assoc. cbn [List.app].
+  destruct (read_int_fmt i x5d rest eq_refl) as (q & r' & E & N1 & N2 & N3 & HR).
+  cbn [parse_frags]. change (beqb x5b x2e) with false. change (beqb x5b x2a) with false. change (beqb x5b x5b) with true. cbn iota.
+  rewrite E. cbn [skip_space]. rewrite N1, N2, N3. cbn iota. rewrite HR.
+  cbn [skip_space]. change (beqb x5d x20) with false. cbn iota. change (beqb x5d x5d) with true. cbn iota. reflexivity.
+Qed.
+
+(* ---- unions *)
+Definition norm_member (m : bytes + Z) : bytes + Z := match m with inl s => inl (sanitize s) | inr i => inr i end.
+
+(* one member followed by a comma or the closing bracket, inside readUnion *)
+Lemma read_member fuel m e rest : (e = x2c \/ e = x5d) ->
+  read_union (S fuel) (print_member m ++ e :: rest) =
+  after_member (norm_member m) (e :: rest) (read_union fuel).
+Proof.
+  intro He. destruct m as [s|i]; cbn [print_member norm_member read_union].
+  - cbn [List.app skip_space]. change (beqb x27 x20) with false. cbn iota.
+    change (beqb x27 x27 || beqb x27 x22) with true. cbn iota.
+    rewrite <- app_assoc. cbn [List.app].
+    rewrite (string_roundtrip_all s x27 (e :: rest) (or_intror eq_refl)). reflexivity.
+  - assert (Hd : is_digit e = false) by (destruct He as [-> | ->]; reflexivity).
+    destruct (read_int_fmt i e rest Hd) as (q & r' & E & N1 & N2 & N3 & HR).
+    rewrite E. cbn [skip_space]. rewrite N1, N3. cbn iota. rewrite HR. reflexivity.
+Qed.
+
+Lemma read_members ms : forall fuel rest, ms <> [] -> (length ms <= fuel)%nat ->
+  read_union fuel (print_members ms ++ x5d :: rest) = Some (map norm_member ms, rest).
+Proof.
+  induction ms as [|m ms IH]; intros fuel rest Hne Hf; [contradiction|].
+  destruct fuel as [|fuel]; [simpl in Hf; lia|]. simpl in Hf.
+  destruct ms as [|m2 ms].
+  - cbn [print_members map]. rewrite (read_member fuel m x5d rest (or_intror eq_refl)).
+    unfold after_member. cbn [skip_space]. change (beqb x5d x20) with false. cbn iota.
+    change (beqb x5d x2c) with false. change (beqb x5d x5d) with true. cbn iota. reflexivity.
+  - change (print_members (m :: m2 :: ms)) with (print_member m ++ x2c :: print_members (m2 :: ms)).
+    rewrite <- app_assoc. cbn [List.app].
+    rewrite (read_member fuel m x2c _ (or_introl eq_refl)).
+    unfold after_member. cbn [skip_space]. change (beqb x2c x20) with false. cbn iota.
+    change (beqb x2c x2c) with true. cbn iota.
+    rewrite (IH fuel rest ltac:(discriminate) ltac:(simpl in *; lia)). reflexivity.
+Qed.
+
+Lemma print_members_length ms : (length ms <= S (length (print_members ms)))%nat.
+Proof.
+  induction ms as [|m ms IH]; [simpl; lia|]. destruct ms as [|m2 ms]; [simpl; lia|].
+  change (print_members (m :: m2 :: ms)) with (print_member m ++ x2c :: print_members (m2 :: ms)).
+  rewrite app_length. cbn [length] in *. lia.
+Qed.
+
+(* a union of at least two members *)
+Lemma parse_union f ld m1 m2 ms rest :
+  parse_frags (S f) ld (print_frag (NUnion (m1 :: m2 :: ms)) ++ rest) =
+  cons_opt (NUnion (map norm_member (m1 :: m2 :: ms))) (parse_frags f false rest).
+Proof.
+  unfold print_frag. change (print_members (m1 :: m2 :: ms)) with (print_member m1 ++ x2c :: print_members (m2 :: ms)).
+  set (tl := print_members (m2 :: ms)).
+  assert (Htl : read_union (length (tl ++ x5d :: rest)) (tl ++ x5d :: rest) = Some (map norm_member (m2 :: ms), rest)).
+  { apply read_members; [discriminate|]. rewrite app_length. pose proof (print_members_length (m2 :: ms)). fold tl in H. cbn [length] in *. lia. }
+  cbn [List.app parse_frags]. change (beqb x5b x2e) with false. change (beqb x5b x2a) with false. change (beqb x5b x5b) with true. cbn iota.
+  rewrite <- !app_assoc. cbn [List.app].
+  destruct m1 as [s|i]; cbn [print_member].
+  - cbn [List.app skip_space]. change (beqb x27 x20) with false. cbn iota. change (beqb x27 x2a) with false. cbn iota.
+    change (beqb x27 x27 || beqb x27 x22) with true. cbn iota.
+    rewrite <- app_assoc. cbn [List.app].
+    rewrite (string_roundtrip_all s x27 (x2c :: tl ++ x5d :: rest) (or_intror eq_refl)).
+    cbn [skip_space]. change (beqb x2c x20) with false. cbn iota. change (beqb x2c x5d) with false. change (beqb x2c x2c) with true. cbn iota.
+    rewrite Htl. reflexivity.
+  - destruct (read_int_fmt i x2c (tl ++ x5d :: rest) eq_refl) as (q & r' & E & N1 & N2 & N3 & HR).
+    rewrite E. cbn [skip_space]. rewrite N1, N2, N3. cbn iota. rewrite HR.
+    cbn [skip_space]. change (beqb x2c x20) with false. cbn iota. change (beqb x2c x5d) with false. change (beqb x2c x2c) with true. cbn iota.
+    rewrite Htl. reflexivity.
 Qed.
 
 Lemma tok_byte_not_special c : tok_byte c = true -> beqb c x2a = false /\ beqb c x2e = false /\ beqb c x5b = false.
@@ -109,16 +187,22 @@ Proof.
   intro H. repeat split; (destruct (beqb c _) eqn:E; [apply beqb_eq in E; subst c; discriminate H | reflexivity]).
 Qed.
 
+Lemma parse_bracket_text f ld k rest :
+  parse_frags (S f) ld (x5b :: x27 :: enc_body_u (length k) k ++ x27 :: x5d :: rest) =
+  cons_opt (NChild (sanitize k)) (parse_frags f false rest).
+Proof.
+  cbn [parse_frags]. change (beqb x5b x2e) with false. change (beqb x5b x2a) with false. change (beqb x5b x5b) with true. cbn iota.
+  cbn [skip_space]. change (beqb x27 x20) with false. cbn iota. change (beqb x27 x2a) with false. cbn iota.
+  change (beqb x27 x27 || beqb x27 x22) with true. cbn iota.
+  rewrite (string_roundtrip_all k x27 (x5d :: rest) (or_intror eq_refl)).
+  cbn [skip_space]. change (beqb x5d x20) with false. cbn iota. change (beqb x5d x5d) with true. cbn iota. reflexivity.
+Qed.
+
 Lemma parse_bracket_child f ld k rest : token_ok k = false ->
   parse_frags (S f) ld (print_frag (NChild k) ++ rest) = cons_opt (norm_frag (NChild k)) (parse_frags f false rest).
 Proof.
-  intro Ht. unfold print_frag, norm_frag. rewrite Ht.
-  cbn [List.app parse_frags]. change (beqb x5b x2e) with false. change (beqb x5b x2a) with false. change (beqb x5b x5b) with true. cbn iota.
-  cbn [skip_space]. change (beqb x27 x20) with false. cbn iota. change (beqb x27 x2a) with false. cbn iota.
-  change (beqb x27 x27 || beqb x27 x22) with true. cbn iota.
-  rewrite <- app_assoc. cbn [List.app].
-  rewrite (string_roundtrip_all k x27 (x5d :: rest) (or_intror eq_refl)).
-  cbn [skip_space]. change (beqb x5d x20) with false. cbn iota. change (beqb x5d x5d) with true. cbn iota. reflexivity.
+  intro Ht. unfold print_frag, norm_frag. rewrite Ht. cbn [List.app]. rewrite <- app_assoc. cbn [List.app].
+  apply parse_bracket_text.
 Qed.
 
 Lemma parse_dot_child f ld c k rest : tok_byte c = true -> forallb tok_byte k = true -> ends_token rest ->
@@ -138,61 +222,94 @@ Proof.
   rewrite (span_token_run k rest Hk Hr). reflexivity.
 Qed.
 
-Lemma parse_printed fs : forall fuel ld, (length fs < fuel)%nat ->
+Definition frag_ok (f : nfrag) : Prop := match f with NUnion [] => False | _ => True end.
+
+Lemma parse_printed fs : forall fuel ld, Forall frag_ok fs -> (length fs < fuel)%nat ->
   parse_frags fuel ld (print_ld ld fs) = Some (map norm_frag fs).
 Proof.
-  induction fs as [|f fs IH]; intros fuel ld Hf.
+  induction fs as [|f fs IH]; intros fuel ld Hok Hf.
   - destruct fuel; [simpl in Hf; lia|]. reflexivity.
   - destruct fuel as [|fuel]; [simpl in Hf; lia|]. simpl in Hf. cbn [map].
-    destruct f as [k|i|star|].
+    pose proof (Forall_inv Hok) as Hokf. pose proof (Forall_inv_tail Hok) as Hoks.
+    destruct f as [k|i|star| |ms].
     + cbn [print_ld]. destruct (token_ok k) eqn:Ht.
       * assert (Hn : norm_frag (NChild k) = NChild k) by (unfold norm_frag; rewrite Ht; reflexivity). rewrite Hn.
         destruct k as [|c k]; [discriminate Ht|]. unfold token_ok in Ht. cbn [forallb] in Ht.
         apply andb_true_iff in Ht as [Hc Hk].
         destruct ld.
-        { rewrite (parse_bare_child fuel c k _ Hc Hk (printed_ends_token fs)). rewrite IH by lia. reflexivity. }
+        { rewrite (parse_bare_child fuel c k _ Hc Hk (printed_ends_token fs)). rewrite IH by (assumption || lia). reflexivity. }
         { change ((x2e :: c :: k) ++ print_ld false fs) with (x2e :: (c :: k) ++ print_ld false fs).
-          rewrite (parse_dot_child fuel false c k _ Hc Hk (printed_ends_token fs)). rewrite IH by lia. reflexivity. }
-      * rewrite (parse_bracket_child fuel ld k _ Ht). rewrite IH by lia. reflexivity.
-    + cbn [print_ld]. rewrite parse_nth. rewrite IH by lia. reflexivity.
+          rewrite (parse_dot_child fuel false c k _ Hc Hk (printed_ends_token fs)). rewrite IH by (assumption || lia). reflexivity. }
+      * rewrite (parse_bracket_child fuel ld k _ Ht). rewrite IH by (assumption || lia). reflexivity.
+    + cbn [print_ld]. rewrite parse_nth. rewrite IH by (assumption || lia). reflexivity.
     + destruct star; cbn [print_ld print_frag].
       * destruct ld; cbn [List.app parse_frags].
-        { change (beqb x2a x2e) with false. change (beqb x2a x2a) with true. cbn iota. rewrite IH by lia. reflexivity. }
-        { change (beqb x2e x2e) with true. cbn iota. change (beqb x2a x2a) with true. cbn iota. rewrite IH by lia. reflexivity. }
+        { change (beqb x2a x2e) with false. change (beqb x2a x2a) with true. cbn iota. rewrite IH by (assumption || lia). reflexivity. }
+        { change (beqb x2e x2e) with true. cbn iota. change (beqb x2a x2a) with true. cbn iota. rewrite IH by (assumption || lia). reflexivity. }
       * cbn [List.app parse_frags]. change (beqb x5b x2e) with false. change (beqb x5b x2a) with false. change (beqb x5b x5b) with true. cbn iota.
         cbn [skip_space]. change (beqb x2a x20) with false. cbn iota. change (beqb x2a x2a) with true. cbn iota.
         cbn [skip_space]. change (beqb x5d x20) with false. cbn iota. change (beqb x5d x5d) with true. cbn iota.
-        rewrite IH by lia. reflexivity.
+        rewrite IH by (assumption || lia). reflexivity.
     + cbn [print_ld parse_frags]. change (beqb x2e x2e) with true. cbn iota. change (beqb x2e x2a) with false. cbn iota.
-      rewrite IH by lia. reflexivity.
+      rewrite IH by (assumption || lia). reflexivity.
+    + cbn [print_ld]. destruct ms as [|m1 [|m2 ms]].
+      * contradiction.
+      * destruct m1 as [s|i].
+        { cbn [print_frag print_members print_member norm_frag List.app]. rewrite <- !app_assoc. cbn [List.app].
+          rewrite parse_bracket_text. rewrite IH by (assumption || lia). reflexivity. }
+        { change (print_frag (NUnion [inr i])) with (print_frag (NNth i)). rewrite parse_nth.
+          rewrite IH by (assumption || lia). reflexivity. }
+      * rewrite parse_union. rewrite IH by (assumption || lia).
+        assert (Hn : norm_frag (NUnion (m1 :: m2 :: ms)) = NUnion (map norm_member (m1 :: m2 :: ms))).
+        { destruct m1; reflexivity. }
+        rewrite Hn. reflexivity.
 Qed.
 
 Lemma printed_length fs : forall ld, (length fs <= length (print_ld ld fs))%nat.
 Proof.
   induction fs as [|f fs IH]; intro ld; [simpl; lia|].
-  destruct f as [k|i|star|]; cbn [print_ld length]; try rewrite app_length.
+  destruct f as [k|i|star| |ms]; cbn [print_ld length]; try rewrite app_length.
   - specialize (IH false). destruct (token_ok k) eqn:Ht.
     + destruct k as [|c k]; [discriminate Ht|]. destruct ld; simpl; lia.
     + unfold print_frag. rewrite Ht. simpl. lia.
   - specialize (IH false). simpl. lia.
   - specialize (IH false). destruct star; [destruct ld|]; simpl; lia.
   - specialize (IH true). lia.
+  - specialize (IH false). simpl. lia.
 Qed.
 
-Theorem path_text_round_trip fs : parse_path (print_path fs) = Some (map norm_frag fs).
+Theorem path_text_round_trip fs : Forall frag_ok fs -> parse_path (print_path fs) = Some (map norm_frag fs).
 Proof.
-  unfold parse_path, print_path. change (beqb x24 x24) with true. cbn iota.
+  intro Hok. unfold parse_path, print_path. change (beqb x24 x24) with true. cbn iota.
   destruct (print_frags_ld fs) as [-> _].
-  apply parse_printed. pose proof (printed_length fs false). lia.
+  apply parse_printed; [exact Hok|]. pose proof (printed_length fs false). lia.
 Qed.
 
-(* keys that are valid UTF-8 (sanitize k = k) come back unchanged, so the whole path does *)
-Definition frag_clean (f : nfrag) : Prop := match f with NChild k => sanitize k = k | _ => True end.
-Lemma norm_clean f : frag_clean f -> norm_frag f = f.
-Proof. destruct f as [k|i|star|]; simpl; try reflexivity. intro H. destruct (token_ok k); [reflexivity | rewrite H; reflexivity]. Qed.
+(* keys and union members that are valid UTF-8 (sanitize k = k) come back unchanged, and so does
+   the whole path when its unions have at least two members *)
+Definition member_clean (m : bytes + Z) : Prop := match m with inl s => sanitize s = s | inr _ => True end.
+Definition frag_clean (f : nfrag) : Prop :=
+  match f with
+  | NChild k => sanitize k = k
+  | NUnion ms => (2 <= length ms)%nat /\ Forall member_clean ms
+  | _ => True
+  end.
+Lemma norm_members_clean ms : Forall member_clean ms -> map norm_member ms = ms.
+Proof.
+  induction 1 as [|m ms Hm _ IH]; [reflexivity|]. cbn [map]. rewrite IH. f_equal.
+  destruct m as [s|i]; [simpl in *; rewrite Hm|]; reflexivity.
+Qed.
+Lemma norm_clean f : frag_clean f -> norm_frag f = f /\ frag_ok f.
+Proof.
+  destruct f as [k|i|star| |ms]; simpl; try (intros; split; [reflexivity|exact I]).
+  - intro H. split; [|exact I]. destruct (token_ok k); [reflexivity | rewrite H; reflexivity].
+  - intros [Hl Hm]. destruct ms as [|m1 [|m2 ms]]; try (simpl in Hl; lia). split; [|exact I].
+    destruct m1 as [s|i]; cbn [norm_frag]; f_equal; exact (norm_members_clean _ Hm).
+Qed.
 
 Theorem path_text_round_trip_clean fs : Forall frag_clean fs -> parse_path (print_path fs) = Some fs.
 Proof.
-  intro H. rewrite path_text_round_trip. f_equal.
-  induction H as [|f fs Hf _ IH]; [reflexivity|]. cbn [map]. rewrite (norm_clean f Hf), IH. reflexivity.
+  intro H. rewrite path_text_round_trip.
+  - f_equal. induction H as [|f fs Hf _ IH]; [reflexivity|]. cbn [map]. rewrite (proj1 (norm_clean f Hf)), IH. reflexivity.
+  - eapply Forall_impl; [|exact H]. intros f Hf. exact (proj2 (norm_clean f Hf)).
 Qed.
